@@ -50,7 +50,7 @@ def gen_case(r: random.Random):
     scheme = r.choice(["http", "https"])
     c = {
         "kind": kind, "scheme": scheme,
-        "host": r.choice(["o.test", "other-origin.test", "10.1.2.3", "o.test", "::1", "2001:db8::5"]),
+        "host": r.choice(["o.test", "other-origin.test", "10.1.2.3", "o.test", "::1", "2001:db8::5", "o.test.", "127.1"]),
         # per-request extensions that concern the origin hop only
         "sni": r.choice([None, None, "front.cdn.test"]),
         "target_ext": r.choice([None, None, None, "/ext/target?y=2"]),
